@@ -311,7 +311,7 @@ def _fake_hpc_command(cmd, output=None, **kw):
             nm = os.path.splitext(os.path.basename(b.get("script", "")))[0] or "job"
             if only_name is not None and nm != only_name:
                 continue
-            vals = {"jobid": i, "state": b["state"], "name": nm}
+            vals = {"jobid": i, "state": b.get("shown") if b["state"] == "SUSPENDED" and b.get("shown") else b["state"], "name": nm}
             rows.append("".join(f"{vals.get(c, 'x'):<20}" for c in cols))
         output["stdout"] = "\n".join(rows) + ("\n" if rows else "")
         if only_id is None and only_name is None:
@@ -566,6 +566,53 @@ def install():
             VC.emit("moved", rows=[[r.name, r.return_code, r.status.value if hasattr(r.status, "value") else str(r.status)]
                                    for r in (args[1] if len(args) > 1 else kw.get("results", []))])
     _wrap_method(ResultsAggregator, "_append_processed_results", before=before_consolidate, after=after_consolidate)
+
+    # a write to the consolidated results file that fails at the file level (quota exceeded on write / flush): the file
+    # has already been opened - with mode "w" it is already truncated - when the error is raised; opening it is also a
+    # scheduling point, so a process can be killed between the open and the write
+    import builtins as _bi
+
+    class _FailingWrites:
+        def __init__(self, fh):
+            self._fh = fh
+
+        def write(self, data):
+            raise OSError(122, "Disk quota exceeded")
+
+        def __getattr__(self, k):
+            return getattr(self._fh, k)
+
+        def __enter__(self):
+            self._fh.__enter__()
+            return self
+
+        def __exit__(self, *a):
+            return self._fh.__exit__(*a)
+
+        def __iter__(self):
+            return iter(self._fh)
+
+    def faulty_open(file, mode="r", *a, **kw):
+        fh = _bi.open(file, mode, *a, **kw)
+        vc = VC
+        if vc is None or cur_actor() is None or not any(c in mode for c in "wa") \
+                or os.path.basename(str(file)) != "processed_results.csv":
+            return fh
+        site = "fwrite:processed_results.csv"
+        n = vc.fault_counter[site] = vc.fault_counter.get(site, 0) + 1
+        vc.emit("site", site=site, n=n, mode=mode)
+        try:
+            vc.yield_point()
+        except BaseException:
+            fh.close()
+            raise
+        spec = vc.faults.get("write_error")
+        if spec and spec[0] == site and spec[1] == n:
+            vc.fired.append(("write_error", site, n))
+            vc.emit("write_error", site=site)
+            return _FailingWrites(fh)
+        return fh
+    ra.open = faulty_open
 
     def after_append_inner(args, kw, res, exc):
         self = args[0]
